@@ -51,15 +51,20 @@ Definition set_exp (r : rl) q := mkrl (r_ch r) q (r_run r) (r_col r) (r_log r) (
 Definition set_ph (r : rl) p := mkrl (r_ch r) (r_exp r) (r_run r) (r_col r) (r_log r) (r_fuel r) p (r_res r).
 Definition set_res (r : rl) o := mkrl (r_ch r) (r_exp r) (r_run r) (r_col r) (r_log r) (r_fuel r) (r_ph r) (Some o).
 
-(* the next iteration of the run loop: [rest] = the tasks that stay in flight (eager mode) *)
+(* the next iteration of the run loop: [rest] = the tasks that stay in flight (eager mode).
+   submit (graph_manager.go:306-317) first runs the state pre-handlers of all new tasks: when one of
+   them fails ([prefail], behaviour 4) it returns that node's error before any of the new tasks is
+   handed over - the run returns, nothing of the step is started or logged, [rest] stays in flight *)
 Definition enter (needAll : bool) (n : nat) (ch : cstate) (rest ts : list (node * val))
            (col : list entry) (log : exec_log) (fuel : nat) : rl :=
   if needAll then
     match fuel with
     | O => mkrl ch [] [] col log O PWait (Some OFuel)
-    | S f => mkrl ch ts ts col (log ++ log_of ts) f PWait None
+    | S f => if existsb prefail ts then mkrl ch [] [] col log f PWait (Some OFail)
+             else mkrl ch ts ts col (log ++ log_of ts) f PWait None
     end
-  else mkrl ch ts (rest ++ ts) col (log ++ log_of ts) fuel PWait None.
+  else if existsb prefail ts then mkrl ch [] rest col log fuel PWait (Some OFail)
+       else mkrl ch ts (rest ++ ts) col (log ++ log_of ts) fuel PWait None.
 
 Definition rl_init (needAll : bool) (m : mode) (g : graph) (fuel : nat) : rl :=
   match start_next m g with
